@@ -152,10 +152,22 @@ def playback(harness, pid):
     with flock('playback-target'):
         rc, out, _ = run(BASE + ['--target-dir', tdir, '-Z', 'concrete-playback', '--concrete-playback=inplace', '--exact', '--harness', harness,
                                  '--harness-timeout', '900s', '--output-format', 'terse'], cwd=work, timeout=1500)
-        # find the generated test
+        # find the generated test (Kani may insert the same test several times: keep one of each name)
         test = None
         for f in os.listdir(os.path.join(work, 'src')):
-            text = open(os.path.join(work, 'src', f)).read()
+            fp = os.path.join(work, 'src', f)
+            text = open(fp).read()
+            seen_t = set()
+
+            def _dedupe(mm):
+                if mm.group(1) in seen_t:
+                    return ''
+                seen_t.add(mm.group(1))
+                return mm.group(0)
+            new_text = re.sub(r'#\[test\]\s*fn (kani_concrete_playback_\w+)\(\) \{.*?\n\}\n?', _dedupe, text, flags=re.S)
+            if new_text != text:
+                open(fp, 'w').write(new_text)
+                text = new_text
             m = re.search(r'#\[test\]\s*fn (kani_concrete_playback_\w+)\(\) \{.*?\n\}', text, re.S)
             if m:
                 test = m.group(1)
